@@ -1,6 +1,6 @@
 """C07 - ConstraintKMeans produces clusters of equal size."""
 from vf import loader
-from vf.core import Clause, Outcome, Violation, require, np_scalars, with_np, with_sk
+from vf.core import Clause, Outcome, Violation, require, np_scalars, with_np, with_sk, build_via
 
 import numpy as np
 from hypothesis import strategies as st
@@ -28,9 +28,11 @@ def _hist_ok(labels, k, n):
 
 
 def _model(case, balanced):
-    return _mod.ConstraintKMeans(**np_scalars(dict(n_clusters=case["k"], strategy=case["strategy"], kmeans0=case["kmeans0"],
+    # via_set_params: built with the OPPOSITE prediction mode and another strategy, then configured with set_params
+    return build_via(_mod.ConstraintKMeans, np_scalars(dict(n_clusters=case["k"], strategy=case["strategy"], kmeans0=case["kmeans0"],
                                                    random_state=case["random_state"], max_iter=case["max_iter"], n_init=case["n_init"],
-                                                   balanced_predictions=balanced, init=case.get("init", "k-means++")), case.get("np_params", False)))
+                                                   balanced_predictions=balanced, init=case.get("init", "k-means++")), case.get("np_params", False)),
+                     case.get("via_set_params"), dict(balanced_predictions=not balanced, strategy="gain" if case["strategy"] == "distance" else "distance", n_clusters=2))
 
 
 def _expand(case):
@@ -186,6 +188,6 @@ CLAUSES = [
            doc="6-10 fit/predict cases per evaluation re-run in a child interpreter started with -O (assert statements not executed)"),
     Clause("large", check_fit, strategy=lambda tier: with_sk(with_np(_large_cases(tier))), quick=48, thorough=800, quick_shards=16, thorough_shards=16,
            doc="the same statement on batches / training sets of several hundred rows (sizes crossing 256, 512, 1024)"),
-    Clause("fit-predict", check_fit, strategy=lambda tier: with_sk(with_np(_cases(tier))), quick=3200, thorough=60000, quick_shards=16,
+    Clause("fit-predict", check_fit, strategy=lambda tier: st.builds(lambda c, v: dict(c, via_set_params=v), with_sk(with_np(_cases(tier))), st.sampled_from([False, False, True])), quick=3200, thorough=60000, quick_shards=16,
            doc="sizes after fit, label range, finite centres, n_iter_, balanced / nearest predictions"),
 ]
